@@ -173,7 +173,6 @@ Definition draw_groups (sp : space) (pt : portrayal) (agents : list agent) : opt
 Definition drawn_marks (gs : list group) : list mark := flat_map group_marks gs.
 
 (* ------------------------------------------------------------------ Altair *)
-Definition oflag {A : Type} (o : option A) : Z := match o with Some _ => 1 | None => 0 end.
 Definition arow_row (r : arow) : list Z :=
   [fst (ar_loc r); snd (ar_loc r);
    oflag (pd_size (ar_d r)); get (pd_size (ar_d r)) 0;
@@ -345,7 +344,7 @@ Inductive op :=
 | Bind (s : list param) (ps : list Z)                  (* does the keyword call M(k=.., ...) itself succeed *)
 | DrawMplC (default_portrayal : bool)      (* make_space_component(backend="matplotlib")(model): the Figure handed to Solara *)
 | DrawAltairC (default_portrayal : bool)   (* make_space_component(backend="altair")(model): the Chart handed to Solara *)
-| DrawAltairEnc.                           (* _draw_grid: the encodings of the chart (taken from the first row) *)
+| DrawAltairEnc.                           (* _draw_grid: the encodings of the chart (from the keys of all rows) *)
 
 Definition find_agent (id : Z) (l : list agent) : option agent := find (fun a => a_id a =? id) l.
 Definition occupied (p : coord) (l : list agent) : bool := existsb (at_cell p) l.
@@ -442,13 +441,14 @@ Definition obs_layer (sp : space) (d : layer) (color_mode : bool) (vmin vmax : o
                           else [1; 2 * lo; 2 * hi])                       (* half units *)
         else [0]).
 
-(* _draw_grid: tooltip / color / size encodings from all_agent_data[0] (no agents: from {}), and the
-   default mark size 30000 / min(width, height)^2 when there is no size encoding *)
+(* _draw_grid (as repaired): tooltip / color / size encodings from the keys of ALL rows
+   (portrayed.setdefault(key, value) over all_agent_data), and the default mark size
+   30000 / min(width, height)^2 when there is no size encoding *)
 Definition obs_altair_enc (sp : space) (pt : portrayal) (agents : list agent) : list Z :=
   match altair_data sp pt agents with
   | None => obs_err E_NOT_IMPLEMENTED
   | Some rows =>
-      let d := match rows with r :: _ => ar_d r | [] => pd_empty end in
+      let d := rows_union rows in
       let m := Z.min (sp_w sp) (sp_h sp) in
       let ms := if oflag (pd_size d) =? 1 then (0, 1) else reduce (30000, m * m) in
       [0; oflag (pd_color d); oflag (pd_size d); oflag (pd_marker d); oflag (pd_zorder d); fst ms; snd ms]
